@@ -473,3 +473,94 @@ pub fn is_canonical_langid(s: &[u8]) -> bool {
     }
     true
 }
+
+// ---- value-level formulas ---------------------------------------------------
+
+pub fn opt_txt_eq(a: &Option<Txt>, b: &Option<Txt>) -> bool {
+    match (a, b) {
+        (None, None) => true,
+        (Some(x), Some(y)) => txt_eq(x, y),
+        _ => false,
+    }
+}
+/// absent sorts first
+pub fn opt_txt_cmp(a: &Option<Txt>, b: &Option<Txt>) -> i8 {
+    match (a, b) {
+        (None, None) => 0,
+        (None, Some(_)) => -1,
+        (Some(_), None) => 1,
+        (Some(x), Some(y)) => txt_cmp(x, y),
+    }
+}
+pub fn variants_eq(a: &LangIdModel, b: &LangIdModel) -> bool {
+    if a.nvariants != b.nvariants {
+        return false;
+    }
+    let mut i = 0;
+    while i < VMAX {
+        if i < a.nvariants && !txt_eq(&a.variants[i], &b.variants[i]) {
+            return false;
+        }
+        i += 1;
+    }
+    true
+}
+/// absent list first, then lexicographic by element, shorter prefix first
+pub fn variants_cmp(a: &LangIdModel, b: &LangIdModel) -> i8 {
+    if a.nvariants == 0 || b.nvariants == 0 {
+        return if a.nvariants == b.nvariants {
+            0
+        } else if a.nvariants == 0 {
+            -1
+        } else {
+            1
+        };
+    }
+    let mut i = 0;
+    while i < VMAX {
+        if i >= a.nvariants || i >= b.nvariants {
+            break;
+        }
+        let c = txt_cmp(&a.variants[i], &b.variants[i]);
+        if c != 0 {
+            return c;
+        }
+        i += 1;
+    }
+    if a.nvariants < b.nvariants {
+        -1
+    } else if a.nvariants > b.nvariants {
+        1
+    } else {
+        0
+    }
+}
+pub fn langid_eq(a: &LangIdModel, b: &LangIdModel) -> bool {
+    txt_eq(&a.lang, &b.lang) && opt_txt_eq(&a.script, &b.script) && opt_txt_eq(&a.region, &b.region) && variants_eq(a, b)
+}
+/// language (und = absent first), script, region, variants
+pub fn langid_cmp(a: &LangIdModel, b: &LangIdModel) -> i8 {
+    let la = if a.lang_und { None } else { Some(a.lang) };
+    let lb = if b.lang_und { None } else { Some(b.lang) };
+    let c = opt_txt_cmp(&la, &lb);
+    if c != 0 {
+        return c;
+    }
+    let c = opt_txt_cmp(&a.script, &b.script);
+    if c != 0 {
+        return c;
+    }
+    let c = opt_txt_cmp(&a.region, &b.region);
+    if c != 0 {
+        return c;
+    }
+    variants_cmp(a, b)
+}
+/// UTS #35-style range matching: a field matches when equal or when the side used as a range lacks it
+pub fn langid_matches(a: &LangIdModel, b: &LangIdModel, ra: bool, rb: bool) -> bool {
+    let f = |ea: bool, eb: bool, eq: bool| (ra && ea) || (rb && eb) || eq;
+    f(a.lang_und, b.lang_und, txt_eq(&a.lang, &b.lang))
+        && f(a.script.is_none(), b.script.is_none(), opt_txt_eq(&a.script, &b.script))
+        && f(a.region.is_none(), b.region.is_none(), opt_txt_eq(&a.region, &b.region))
+        && f(a.nvariants == 0, b.nvariants == 0, variants_eq(a, b))
+}
